@@ -8,29 +8,624 @@ From RecordUpdate Require Import RecordSet.
 Import RecordSetNotations.
 From Coq Require Import Lia.
 
+From Coq Require Import Permutation.
+
+(** ** Two clauses the invariant [WF] lacks (see the comments at [live_counted_once],
+    [snapshot_is_content], [stats_sizes_sum]); stated as explicit hypotheses of the [_partial] variants. *)
+
+(** Every table is listed by (exactly) its archetype. *)
+Definition v_tables_listed (s : W) : Prop :=
+  forall tid t, nth_error (w_tables s) tid = Some t ->
+    exists a, nth_error (w_archs s) (t_arch t) = Some a /\ a_tables a = [tid].
+
+(** All relation targets of all tables are zero (relation-free world). *)
+Definition v_targets_zero (s : W) : Prop :=
+  forall tid t, nth_error (w_tables s) tid = Some t -> Forall (fun tg : ent => tg = zero_ent) (t_targets t).
+
+(** ** List library *)
+
+Lemma v_fold_sum : forall A (f : A -> nat) l acc,
+  fold_left (fun acc x => acc + f x) l acc = acc + list_sum (map f l).
+Proof. induction l as [|a l IH]; simpl; intros acc; [lia|]. rewrite IH. lia. Qed.
+
+Lemma v_list_sum_flat : forall A B (g : A -> list B) (f : B -> nat) l,
+  list_sum (map (fun a => list_sum (map f (g a))) l) = list_sum (map f (flat_map g l)).
+Proof.
+  induction l as [|a l IH]; simpl; auto. rewrite map_app, list_sum_app, IH. reflexivity.
+Qed.
+
+Lemma v_list_sum_zero : forall A (f : A -> nat) l, (forall x, In x l -> f x = 0) -> list_sum (map f l) = 0.
+Proof.
+  induction l as [|a l IH]; simpl; intros H; auto. rewrite (H a), IH; auto.
+Qed.
+
+Lemma v_list_sum_single : forall (f : nat -> nat) l x, NoDup l -> In x l ->
+  (forall y, In y l -> y <> x -> f y = 0) -> list_sum (map f l) = f x.
+Proof.
+  induction l as [|a l IH]; simpl; intros x ND Hin Hz; [contradiction|].
+  inversion ND as [|? ? Na Nl]; subst. destruct Hin as [->|Hin].
+  - rewrite v_list_sum_zero; [lia|]. intros y Hy. apply Hz; auto. intros ->. contradiction.
+  - assert (Za : f a = 0) by (apply Hz; [left; reflexivity|intros ->; contradiction]).
+    rewrite Za. simpl. apply IH; auto.
+Qed.
+
+Lemma v_list_sum_perm : forall l l', Permutation l l' -> list_sum l = list_sum l'.
+Proof. induction 1; simpl; lia. Qed.
+
+Lemma v_map_nth_seq : forall A B (h : A -> B) (d : B) (l : list A),
+  map (fun i => match nth_error l i with Some x => h x | None => d end) (seq 0 (length l)) = map h l.
+Proof.
+  intros A B h d l. induction l as [|x l IH] using rev_ind; [reflexivity|].
+  rewrite app_length. simpl length. rewrite seq_app, !map_app. simpl. f_equal.
+  - rewrite <- IH. apply map_ext_in. intros i Hi. apply in_seq in Hi.
+    rewrite nth_error_app1; [reflexivity|lia].
+  - rewrite nth_error_app2; [|lia]. rewrite Nat.sub_diag. reflexivity.
+Qed.
+
+Lemma v_flat_map_nth_seq : forall A B (h : A -> list B) (l : list A),
+  flat_map (fun i => match nth_error l i with Some x => h x | None => [] end) (seq 0 (length l)) = flat_map h l.
+Proof.
+  intros. rewrite !flat_map_concat_map. rewrite v_map_nth_seq. reflexivity.
+Qed.
+
+Lemma v_NoDup_app : forall A (l1 l2 : list A), NoDup l1 -> NoDup l2 ->
+  (forall x, In x l1 -> ~ In x l2) -> NoDup (l1 ++ l2).
+Proof.
+  induction l1 as [|a l1 IH]; simpl; intros l2 N1 N2 D; auto.
+  inversion N1 as [|? ? Na Nl]; subst. constructor.
+  - intros H. apply in_app_or in H. destruct H as [H|H]; [contradiction|]. apply (D a); auto.
+  - apply IH; auto.
+Qed.
+
+Lemma v_NoDup_flat_map : forall A B (g : A -> list B) l, NoDup l ->
+  (forall x, In x l -> NoDup (g x)) ->
+  (forall x y z, In x l -> In y l -> In z (g x) -> In z (g y) -> x = y) ->
+  NoDup (flat_map g l).
+Proof.
+  induction l as [|a l IH]; simpl; intros ND H1 H2; [constructor|].
+  inversion ND as [|? ? Na Nl]; subst. apply v_NoDup_app.
+  - apply H1; auto.
+  - apply IH; auto. intros x y z Hx Hy. apply H2; auto.
+  - intros z Hz Hz'. apply in_flat_map in Hz'. destruct Hz' as (y & Hy & Hzy).
+    assert (a = y) by (apply (H2 a y z); auto). subst. contradiction.
+Qed.
+
+Lemma v_length_flat_map : forall A B (g : A -> list B) l,
+  length (flat_map g l) = list_sum (map (fun x => length (g x)) l).
+Proof. induction l as [|a l IH]; simpl; auto. rewrite app_length, IH. reflexivity. Qed.
+
+Lemma v_nth_firstn : forall A (l : list A) n r d, r < n -> nth r (firstn n l) d = nth r l d.
+Proof.
+  induction l as [|a l IH]; intros n r d H.
+  - rewrite firstn_nil. reflexivity.
+  - destruct n as [|n]; [lia|]. destruct r as [|r]; simpl; auto. apply IH. lia.
+Qed.
+
+Lemma v_NoDup_short : forall A (l : list A), length l <= 1 -> NoDup l.
+Proof.
+  intros A [|x [|y l]] H; simpl in H; try lia; repeat constructor. intros [].
+Qed.
+
+Lemma v_filter_none : forall e l, ~ In e l -> filter (ent_eqb e) l = [].
+Proof.
+  induction l as [|a l IH]; simpl; intros H; auto.
+  destruct (ent_eqb e a) eqn:E.
+  - apply sa_ent_eqb_eq in E. subst. exfalso. auto.
+  - apply IH. auto.
+Qed.
+
+Lemma v_filter_one : forall e l, NoDup l -> In e l -> length (filter (ent_eqb e) l) = 1.
+Proof.
+  induction l as [|a l IH]; simpl; intros ND H; [contradiction|].
+  inversion ND as [|? ? Na Nl]; subst. destruct (ent_eqb e a) eqn:E.
+  - apply sa_ent_eqb_eq in E. subst. rewrite v_filter_none; auto.
+  - destruct H as [->|H]; [rewrite sa_ent_eqb_refl in E; discriminate|]. apply IH; auto.
+Qed.
+
+(** ** Rows of one table *)
+
+Lemma v_tbl_ok : forall s tid t, WF s -> nth_error (w_tables s) tid = Some t -> tbl_ok t.
+Proof.
+  intros s tid t HW T. pose proof (wf_tables _ HW) as F. rewrite Forall_forall in F.
+  apply F. eapply nth_error_In; eauto.
+Qed.
+
+Lemma v_count_pos : forall e t, count_rows e t <> 0 -> exists r, r < t_len t /\ row_ent t r = e.
+Proof.
+  intros e t H. unfold count_rows in H.
+  destruct (filter (ent_eqb e) (firstn (t_len t) (t_ents t))) as [|x l] eqn:F; [simpl in H; lia|].
+  assert (Hx : In x (filter (ent_eqb e) (firstn (t_len t) (t_ents t)))) by (rewrite F; left; reflexivity).
+  apply filter_In in Hx. destruct Hx as [Hin Heq]. apply sa_ent_eqb_eq in Heq. subst x.
+  destruct (In_nth _ _ zero_ent Hin) as (r & Hr & Hn).
+  rewrite firstn_length in Hr. exists r. split; [lia|]. unfold row_ent. rewrite <- Hn.
+  symmetry. apply v_nth_firstn. lia.
+Qed.
+
+Lemma v_count_one : forall s tid t r, WF s -> nth_error (w_tables s) tid = Some t -> r < t_len t ->
+  count_rows (row_ent t r) t = 1.
+Proof.
+  intros s tid t r HW T R. unfold count_rows.
+  destruct (v_tbl_ok _ _ _ HW T) as ((S1 & S2 & _) & _).
+  assert (L : length (firstn (t_len t) (t_ents t)) = t_len t) by (rewrite firstn_length; lia).
+  apply v_filter_one.
+  - apply (NoDup_nth _ zero_ent). intros i j Hi Hj E. rewrite L in Hi, Hj.
+    rewrite !v_nth_firstn in E by lia.
+    assert (E' : fst (row_ent t i) = fst (row_ent t j)) by (unfold row_ent; rewrite E; reflexivity).
+    destruct (sb2_row_inj s tid t i tid t j HW T Hi T Hj E'). auto.
+  - unfold row_ent. rewrite <- (v_nth_firstn _ (t_ents t) (t_len t) r zero_ent R). apply nth_In. lia.
+Qed.
+
+(** A table holding [e] in one of its rows is the table [e] is located in, and [e] is live. *)
+Lemma v_count_pos_live : forall s e tid t, WF s -> nth_error (w_tables s) tid = Some t -> count_rows e t <> 0 ->
+  live s e = true /\ exists r, loc s e = Some (tid, r).
+Proof.
+  intros s e tid t HW T C. destruct (v_count_pos _ _ C) as (r & R & E).
+  destruct (wf_rows _ HW _ _ _ T R) as (L & _). rewrite E in L. split; [|eauto].
+  apply live_present. exists tid, r, t. auto.
+Qed.
+
+(** ** The active table lists *)
+
+Definition v_at (s : W) (f : table -> nat) (tid : nat) : nat :=
+  match nth_error (w_tables s) tid with Some t => f t | None => 0 end.
+Definition v_listed (s : W) : list nat := flat_map a_tables (w_archs s).
+
+Lemma v_inner_fold : forall s (f : table -> nat) l acc,
+  fold_left (fun acc tid => match nth_error (w_tables s) tid with Some t => acc + f t | None => acc end) l acc
+  = acc + list_sum (map (v_at s f) l).
+Proof.
+  induction l as [|a l IH]; simpl; intros acc; [lia|]. rewrite IH. unfold v_at at 2.
+  destruct (nth_error (w_tables s) a); lia.
+Qed.
+
+Lemma v_count_in_world_sum : forall s e,
+  count_in_world s e = list_sum (map (v_at s (count_rows e)) (v_listed s)).
+Proof.
+  intros s e. unfold count_in_world, v_listed.
+  assert (G : forall l acc, fold_left (fun acc a =>
+      fold_left (fun acc tid => match nth_error (w_tables s) tid with
+                               | Some t => acc + count_rows e t | None => acc end) (a_tables a) acc) l acc
+      = acc + list_sum (map (v_at s (count_rows e)) (flat_map a_tables l))).
+  { induction l as [|a l IH]; simpl; intros acc; [lia|].
+    rewrite IH, v_inner_fold, map_app, list_sum_app. lia. }
+  rewrite G. reflexivity.
+Qed.
+
+Lemma v_listed_seq : forall s, v_listed s =
+  flat_map (fun i => match nth_error (w_archs s) i with Some a => a_tables a | None => [] end)
+           (seq 0 (length (w_archs s))).
+Proof. intros s. unfold v_listed. symmetry. apply v_flat_map_nth_seq. Qed.
+
+Lemma v_listed_in : forall s tid, In tid (v_listed s) <->
+  exists aid a, nth_error (w_archs s) aid = Some a /\ In tid (a_tables a).
+Proof.
+  intros s tid. unfold v_listed. rewrite in_flat_map. split.
+  - intros (a & Ha & Ht). destruct (In_nth_error _ _ Ha) as (aid & Hn). eauto.
+  - intros (aid & a & Hn & Ht). exists a. split; auto. eapply nth_error_In; eauto.
+Qed.
+
+Lemma v_listed_table : forall s tid, WF s -> In tid (v_listed s) ->
+  exists t, nth_error (w_tables s) tid = Some t.
+Proof.
+  intros s tid HW H. apply v_listed_in in H. destruct H as (aid & a & Ha & Ht).
+  destruct (wf_arch_tables _ HW aid a tid Ha (or_introl Ht)) as (t & T & _). eauto.
+Qed.
+
+Lemma v_listed_NoDup : forall s, St s -> NoDup (v_listed s).
+Proof.
+  intros s [HW (_ & _ & N3 & _)]. rewrite v_listed_seq. apply v_NoDup_flat_map.
+  - apply seq_NoDup.
+  - intros i _. destruct (nth_error (w_archs s) i) as [a|] eqn:Ha; [|constructor].
+    apply v_NoDup_short. apply (wf_arch_norel_table _ HW i a Ha). destruct (N3 i a Ha) as (_ & Z & _). exact Z.
+  - intros i j z _ _ Hi Hj.
+    destruct (nth_error (w_archs s) i) as [a|] eqn:Ha; [|contradiction].
+    destruct (nth_error (w_archs s) j) as [b|] eqn:Hb; [|contradiction].
+    destruct (wf_arch_tables _ HW i a z Ha (or_introl Hi)) as (t & T & A).
+    destruct (wf_arch_tables _ HW j b z Hb (or_introl Hj)) as (t' & T' & A').
+    rewrite T in T'. inversion T'; subst. reflexivity.
+Qed.
+
+Lemma v_listed_all : forall s tid t, v_tables_listed s -> nth_error (w_tables s) tid = Some t -> In tid (v_listed s).
+Proof.
+  intros s tid t HL T. destruct (HL tid t T) as (a & Ha & Hl). apply v_listed_in.
+  exists (t_arch t), a. split; auto. rewrite Hl. left. reflexivity.
+Qed.
+
+(** Under [v_tables_listed] the listed tables are all tables, each once. *)
+Lemma v_listed_perm : forall s, St s -> v_tables_listed s ->
+  Permutation (v_listed s) (seq 0 (length (w_tables s))).
+Proof.
+  intros s HS HL. apply NoDup_Permutation; [apply v_listed_NoDup; auto|apply seq_NoDup|].
+  intros tid. rewrite in_seq. split.
+  - intros H. destruct (v_listed_table s tid (proj1 HS) H) as (t & T).
+    apply sa_nth_error_lt in T. lia.
+  - intros [_ H]. simpl in H. destruct (nth_error (w_tables s) tid) as [t|] eqn:T.
+    + eapply v_listed_all; eauto.
+    + apply nth_error_None in T. lia.
+Qed.
+
+Lemma v_sum_tables : forall s (f : table -> nat),
+  list_sum (map (v_at s f) (seq 0 (length (w_tables s)))) = list_sum (map f (w_tables s)).
+Proof. intros s f. unfold v_at. rewrite v_map_nth_seq. reflexivity. Qed.
+
+
 (** In a well-formed relation-free world every live entity appears exactly once in a full query
     (count_in_world is what the callback's Filter0 query counts), every other handle not at all. *)
+
+(** What the invariant gives as it stands: an entity located in table [tid] is counted once if [tid]
+    is in some active list, and not at all otherwise. *)
+Lemma v_count_listed : forall s e tid r, St s -> live s e = true -> loc s e = Some (tid, r) ->
+  count_in_world s e = if in_dec Nat.eq_dec tid (v_listed s) then 1 else 0.
+Proof.
+  intros s e tid r HS H L. pose proof (proj1 HS) as HW.
+  apply live_present in H. destruct H as (tid' & r' & t & L' & T & R & E).
+  rewrite L in L'. inversion L'; subst tid' r'. clear L'.
+  assert (Z : forall y, y <> tid -> v_at s (count_rows e) y = 0).
+  { intros y Ne. unfold v_at. destruct (nth_error (w_tables s) y) as [t'|] eqn:T'; auto.
+    destruct (Nat.eq_dec (count_rows e t') 0) as [Z|NZ]; auto.
+    destruct (v_count_pos_live s e y t' HW T' NZ) as (_ & r' & L'). rewrite L in L'. inversion L'. congruence. }
+  rewrite v_count_in_world_sum. destruct (in_dec Nat.eq_dec tid (v_listed s)) as [Hin|Hout].
+  - rewrite (v_list_sum_single (v_at s (count_rows e)) (v_listed s) tid).
+    + unfold v_at. rewrite T. rewrite <- E. eapply v_count_one; eauto.
+    + apply v_listed_NoDup; auto.
+    + exact Hin.
+    + intros y _ Ne. apply Z; auto.
+  - apply v_list_sum_zero. intros y Hy. apply Z. intros ->. contradiction.
+Qed.
+
+(** No handle is ever counted twice. *)
+Theorem counted_at_most_once : forall s e, St s -> count_in_world s e <= 1.
+Proof.
+  intros s e HS. destruct (live s e) eqn:Lv.
+  - pose proof Lv as P. apply live_present in P. destruct P as (tid & r & t & L & _).
+    rewrite (v_count_listed s e tid r HS Lv L). destruct (in_dec _ _ _); lia.
+  - assert (Z : count_in_world s e = 0); [|lia].
+    rewrite v_count_in_world_sum. apply v_list_sum_zero.
+    intros tid Hin. unfold v_at. destruct (nth_error (w_tables s) tid) as [t|] eqn:T; auto.
+    destruct (Nat.eq_dec (count_rows e t) 0) as [Z|NZ]; auto.
+    destruct (v_count_pos_live s e tid t (proj1 HS) T NZ) as (Lv' & _). congruence.
+Qed.
+
+(** *** Refutation of [live_counted_once] as stated: erasing all active table lists keeps the
+    invariant and the content, but makes every count zero. *)
+Definition v_unlist (s : W) : W := s <| w_archs ::= map (fun a => a <| a_tables := [] |>) |>.
+
+Lemma v_unlist_arch : forall s aid a', nth_error (w_archs (v_unlist s)) aid = Some a' ->
+  exists a, nth_error (w_archs s) aid = Some a /\ a' = a <| a_tables := [] |>.
+Proof.
+  intros s aid a' H. unfold v_unlist in H. cbn in H. rewrite nth_error_map in H.
+  destruct (nth_error (w_archs s) aid) as [a|]; [|discriminate]. inversion H. eauto.
+Qed.
+
+Lemma v_unlist_arch' : forall s aid a, nth_error (w_archs s) aid = Some a ->
+  nth_error (w_archs (v_unlist s)) aid = Some (a <| a_tables := [] |>).
+Proof. intros s aid a H. unfold v_unlist. cbn. rewrite nth_error_map, H. reflexivity. Qed.
+
+Lemma v_unlist_St : forall s, St s -> St (v_unlist s).
+Proof.
+  intros s [HW (N1 & N2 & N3 & N4)]. split.
+  - destruct HW. constructor; auto.
+    + intros tid t T. destruct (wf_layout tid t T) as (a & A1 & A2). exists (a <| a_tables := [] |>).
+      split; [apply v_unlist_arch'; exact A1|exact A2].
+    + intros aid a' H. destruct (v_unlist_arch s aid a' H) as (a & Ha & ->). exact (wf_arch_comps aid a Ha).
+    + intros i j a' b' Hi Hj M. destruct (v_unlist_arch s i a' Hi) as (a & Ha & ->).
+      destruct (v_unlist_arch s j b' Hj) as (b & Hb & ->). exact (wf_arch_unique i j a b Ha Hb M).
+    + intros aid a' tid H D. destruct (v_unlist_arch s aid a' H) as (a & Ha & ->).
+      apply (wf_arch_tables aid a tid Ha). destruct D as [[]|D]. right. exact D.
+    + intros aid a' H _. destruct (v_unlist_arch s aid a' H) as (a & Ha & ->). simpl. lia.
+    + destruct wf_arch0 as (a0 & A0 & M0 & T0). exists (a0 <| a_tables := [] |>).
+      split; [apply v_unlist_arch'; exact A0|]. split; [exact M0|exact T0].
+  - unfold NoRel. split; [exact N1|]. split; [exact N2|]. split; [|exact N4].
+    intros aid a' H. destruct (v_unlist_arch s aid a' H) as (a & Ha & ->). exact (N3 aid a Ha).
+Qed.
+
+Lemma v_unlist_live : forall s e, live (v_unlist s) e = live s e.
+Proof. reflexivity. Qed.
+
+Lemma v_unlist_count : forall s e, count_in_world (v_unlist s) e = 0.
+Proof.
+  intros s e. rewrite v_count_in_world_sum. apply v_list_sum_zero. intros tid H. exfalso.
+  apply v_listed_in in H. destruct H as (aid & a' & Ha & Hin).
+  destruct (v_unlist_arch s aid a' Ha) as (a & _ & ->). exact Hin.
+Qed.
+
+Theorem v_live_counted_once_refuted :
+  (exists s e, St s /\ live s e = true) ->
+  ~ (forall s e, St s -> live s e = true -> count_in_world s e = 1).
+Proof.
+  intros (s & e & HS & Lv) H.
+  pose proof (H (v_unlist s) e (v_unlist_St s HS) Lv) as C. rewrite v_unlist_count in C. discriminate.
+Qed.
+
+(* REFUTED as stated: [WF]/[NoRel] do not say that the table of a live entity is listed in the
+   [a_tables] of its archetype ([wf_arch_tables] is only the converse direction: listed tables exist
+   and carry the archetype's number). [v_unlist] above erases all active lists; this keeps [St] and
+   [live] but makes every count zero, so the statement contradicts the existence of any [St] world with
+   a live entity ([v_live_counted_once_refuted]). Missing clause of the invariant: [v_tables_listed].
 Theorem live_counted_once : forall s e, St s -> live s e = true -> count_in_world s e = 1.
-Admitted.
+(refuted). *)
+
+Theorem live_counted_once_partial : forall s e, St s -> v_tables_listed s -> live s e = true ->
+  count_in_world s e = 1.
+Proof.
+  intros s e HS HL H. pose proof H as P. apply live_present in P.
+  destruct P as (tid & r & t & L & T & _).
+  rewrite (v_count_listed s e tid r HS H L).
+  destruct (in_dec Nat.eq_dec tid (v_listed s)) as [_|Hout]; [reflexivity|].
+  exfalso. apply Hout. eapply v_listed_all; eauto.
+Qed.
+
 Theorem dead_counted_zero : forall s e, St s -> live s e = false -> count_in_world s e = 0.
-Admitted.
+Proof.
+  intros s e [HW _] H. rewrite v_count_in_world_sum. apply v_list_sum_zero.
+  intros tid Hin. unfold v_at. destruct (nth_error (w_tables s) tid) as [t|] eqn:T; auto.
+  destruct (Nat.eq_dec (count_rows e t) 0) as [Z|NZ]; auto.
+  destruct (v_count_pos_live s e tid t HW T NZ) as (Lv & _). congruence.
+Qed.
 
 (** The snapshot a callback takes of a live entity is its content: one entry per component, in
     ascending component order, with the value [val] reports and target zero (no relations). *)
+
+(** *** Refutation of [snapshot_is_content] as stated: overwriting all relation targets keeps the
+    invariant and the content, but shows up in the snapshot. *)
+Definition v_retarget_tbl (t : table) : table := t <| t_targets := map (fun _ => (1, 0%N)) (t_targets t) |>.
+Definition v_retarget (s : W) : W := s <| w_tables ::= map v_retarget_tbl |>.
+
+Lemma v_retarget_tbl_inv : forall s tid t', nth_error (w_tables (v_retarget s)) tid = Some t' ->
+  exists t, nth_error (w_tables s) tid = Some t /\ t' = v_retarget_tbl t.
+Proof.
+  intros s tid t' H. unfold v_retarget in H. cbn in H. rewrite nth_error_map in H.
+  destruct (nth_error (w_tables s) tid) as [t|]; [|discriminate]. inversion H. eauto.
+Qed.
+
+Lemma v_retarget_tbl' : forall s tid t, nth_error (w_tables s) tid = Some t ->
+  nth_error (w_tables (v_retarget s)) tid = Some (v_retarget_tbl t).
+Proof. intros s tid t H. unfold v_retarget. cbn. rewrite nth_error_map, H. reflexivity. Qed.
+
+Lemma v_retarget_St : forall s, St s -> St (v_retarget s).
+Proof.
+  intros s [HW (N1 & N2 & N3 & N4)]. split.
+  - destruct HW. constructor; auto.
+    + unfold v_retarget. cbn. apply Forall_forall. intros t' H. apply in_map_iff in H.
+      destruct H as (t & <- & Hin). rewrite Forall_forall in wf_tables. exact (wf_tables t Hin).
+    + intros tid t' T. destruct (v_retarget_tbl_inv s tid t' T) as (t & Ht & ->).
+      destruct (wf_layout tid t Ht) as (a & A1 & A2 & A3 & A4). exists a.
+      split; [exact A1|]. split; [exact A2|]. split; [exact A3|].
+      unfold v_retarget_tbl. cbn. rewrite map_length. exact A4.
+    + intros aid a tid Ha D. destruct (wf_arch_tables aid a tid Ha D) as (t & T & A).
+      exists (v_retarget_tbl t). split; [apply v_retarget_tbl'; exact T|exact A].
+    + destruct wf_arch0 as (a0 & A0 & M0 & t0 & T0 & B0). exists a0. split; [exact A0|]. split; [exact M0|].
+      exists (v_retarget_tbl t0). split; [apply v_retarget_tbl'; exact T0|exact B0].
+    + intros tid t' r T R. destruct (v_retarget_tbl_inv s tid t' T) as (t & Ht & ->).
+      exact (wf_rows tid t r Ht R).
+    + intros id tid r Ix. destruct (wf_index id tid r Ix) as (t & T & R & E).
+      exists (v_retarget_tbl t). split; [apply v_retarget_tbl'; exact T|]. split; [exact R|exact E].
+  - unfold NoRel. split; [exact N1|]. split; [|split; [exact N3|exact N4]].
+    intros tid t' T. destruct (v_retarget_tbl_inv s tid t' T) as (t & Ht & ->). exact (N2 tid t Ht).
+Qed.
+
+Theorem v_snapshot_is_content_refuted :
+  (exists s e tid r t c ids, St s /\ live s e = true /\ loc s e = Some (tid, r) /\
+      nth_error (w_tables s) tid = Some t /\ t_ids t = c :: ids) ->
+  ~ (forall s e l, St s -> live s e = true -> snapshot_entity s e = Some l ->
+       exists ids, comps_of s e = Some ids /\ l = Zn (length ids) :: flat_map (fun c =>
+         [Zn c; match val s e c with Some v => v | None => 0%Z end; 0%Z; 0%Z]) ids).
+Proof.
+  intros (s & e & tid & r & t & c & ids & HS & Lv & L & T & I) H.
+  pose proof (v_retarget_tbl' s tid t T) as T'.
+  assert (L' : loc (v_retarget s) e = Some (tid, r)) by exact L.
+  assert (Lv' : live (v_retarget s) e = true).
+  { unfold live. rewrite L', T'. unfold live in Lv. rewrite L, T in Lv. exact Lv. }
+  assert (Sn : snapshot_entity (v_retarget s) e = Some (Zn (length (t_ids t)) :: snapshot_row (v_retarget_tbl t) r)).
+  { unfold snapshot_entity. unfold loc in L'.
+    destruct (nth_error (w_index (v_retarget s)) (fst e)) as [[[x|] y]|]; try discriminate.
+    inversion L'; subst. rewrite T'. reflexivity. }
+  destruct (H _ _ _ (v_retarget_St s HS) Lv' Sn) as (ids2 & C & E).
+  unfold comps_of in C. rewrite L', T' in C. simpl in C. inversion C; subst ids2. clear C.
+  destruct (wf_layout _ (proj1 HS) tid t T) as (_ & _ & _ & _ & Htg).
+  destruct (v_tbl_ok _ _ _ (proj1 HS) T) as ((_ & _ & Hcols & _) & _).
+  inversion E as [E']. clear E. unfold snapshot_row, v_retarget_tbl in E'. cbn in E'.
+  rewrite I in *. destruct (t_cols t) as [|col cols]; [discriminate|].
+  destruct (t_targets t) as [|tg tgs]; [discriminate|]. simpl in E'. inversion E'.
+Qed.
+
+(* NOT DERIVABLE as stated: the two trailing zeros of each entry are the relation target stored in
+   [t_targets] of the entity's table. [WF] only fixes the LENGTH of [t_targets] ([wf_layout]) and
+   [NoRel] only says [t_rels t = []] and [t_free t = false]; neither says the targets are [zero_ent].
+   Replacing [t_targets] of a table by a list of non-zero handles of the same length keeps [St], [live]
+   and [val] but changes the snapshot ([v_retarget], [v_snapshot_is_content_refuted] above). Missing clause: [v_targets_zero] (new tables get
+   [repeat zero_ent], relation-free operations never write targets).
 Theorem snapshot_is_content : forall s e l, St s -> live s e = true -> snapshot_entity s e = Some l ->
   exists ids, comps_of s e = Some ids /\ l = Zn (length ids) :: flat_map (fun c =>
      [Zn c; match val s e c with Some v => v | None => 0%Z end; 0%Z; 0%Z]) ids.
-Admitted.
+(refuted). *)
+
+Lemma v_index_of_nth : forall l i, NoDup l -> i < length l -> index_of (nth i l 0) l = Some i.
+Proof.
+  induction l as [|a l IH]; simpl; intros i ND H; [lia|].
+  inversion ND as [|? ? Na Nl]; subst. destruct i as [|i].
+  - rewrite Nat.eqb_refl. reflexivity.
+  - destruct (Nat.eqb_spec a (nth i l 0)) as [E|E].
+    + exfalso. apply Na. rewrite E. apply nth_In. lia.
+    + rewrite IH; auto. lia.
+Qed.
+
+Lemma v_snapshot_row_gen : forall row (G : nat -> Z) ids cols tgs,
+  length cols = length ids -> length tgs = length ids ->
+  Forall (fun tg : ent => tg = zero_ent) tgs ->
+  (forall i, i < length ids -> G (nth i ids 0) = nth row (nth i cols []) 0%Z) ->
+  flat_map (fun p : nat * (list Z * ent) => let '(c, (col, tg)) := p in [Zn c; nth row col 0%Z] ++ Zent tg)
+           (combine ids (combine cols tgs))
+  = flat_map (fun c => [Zn c; G c; 0%Z; 0%Z]) ids.
+Proof.
+  intros row G. induction ids as [|c ids IH]; intros cols tgs Hc Ht Hz HG; [reflexivity|].
+  destruct cols as [|col cols]; [discriminate|]. destruct tgs as [|tg tgs]; [discriminate|].
+  inversion Hz as [|? ? Z1 Z2]; subst. simpl in Hc, Ht. simpl.
+  pose proof (HG 0 ltac:(simpl; lia)) as H0. simpl in H0. rewrite H0. do 4 f_equal.
+  apply IH; auto; try lia. intros i Hi. apply (HG (S i)). simpl. lia.
+Qed.
+
+Theorem snapshot_is_content_partial : forall s e l, St s -> v_targets_zero s -> live s e = true ->
+  snapshot_entity s e = Some l ->
+  exists ids, comps_of s e = Some ids /\ l = Zn (length ids) :: flat_map (fun c =>
+     [Zn c; match val s e c with Some v => v | None => 0%Z end; 0%Z; 0%Z]) ids.
+Proof.
+  intros s e l [HW HN] HZ Hl Hs. pose proof Hl as Hp. apply live_present in Hp.
+  destruct Hp as (tid & r & t & L & T & R & E).
+  unfold snapshot_entity in Hs. pose proof L as L0. unfold loc in L0.
+  destruct (nth_error (w_index s) (fst e)) as [[[tid'|] r']|] eqn:Ix; try discriminate.
+  inversion L0; subst tid' r'. rewrite T in Hs. inversion Hs; subst l. clear Hs.
+  exists (t_ids t). split; [unfold comps_of; rewrite L, T; reflexivity|]. f_equal.
+  destruct (wf_layout _ HW tid t T) as (a & Ha & Hids & _ & Htg).
+  destruct (wf_arch_comps _ HW _ _ Ha) as (Hc & _).
+  assert (ND : NoDup (t_ids t)) by (rewrite Hids, Hc; apply mk_to_list_sorted).
+  destruct (v_tbl_ok _ _ _ HW T) as ((_ & _ & Hcols & _) & _).
+  unfold snapshot_row. apply v_snapshot_row_gen; auto.
+  - exact (HZ tid t T).
+  - intros i Hi. unfold val. rewrite Hl. unfold value_of. rewrite L, T. unfold tbl_colidx.
+    rewrite v_index_of_nth; auto.
+Qed.
 
 (** What a callback logs only depends on the storage, the lock state and the observer: two states
     with the same storage and the same lock give the same log entry. *)
+
+(** *** Computations that leave the callback log alone *)
+Definition v_lp {A} (m : MW A) : Prop := forall s, w_log (state_of (m s)) = w_log s.
+
+Lemma v_lp_ret : forall A (a : A), v_lp (ret a).
+Proof. intros A a s. reflexivity. Qed.
+Lemma v_lp_fail : forall A e, v_lp (@fail W A e).
+Proof. intros A e s. reflexivity. Qed.
+Lemma v_lp_get : v_lp (@get W).
+Proof. intros s. reflexivity. Qed.
+Lemma v_lp_guard : forall b e, v_lp (@guard W b e).
+Proof. intros b e s. destruct b; reflexivity. Qed.
+Lemma v_lp_of_opt : forall A (o : option A) e, v_lp (@of_opt W A o e).
+Proof. intros A o e s. destruct o; reflexivity. Qed.
+Lemma v_lp_bind : forall A B (m : MW A) (k : A -> MW B), v_lp m -> (forall a, v_lp (k a)) -> v_lp (bind m k).
+Proof.
+  intros A B m k Hm Hk s. unfold bind. specialize (Hm s). destruct (m s) as [a s'|e s']; simpl in Hm.
+  - rewrite Hk. exact Hm.
+  - exact Hm.
+Qed.
+Lemma v_lp_modify : forall f : W -> W, (forall s, w_log (f s) = w_log s) -> v_lp (modify f).
+Proof. intros f H s. apply H. Qed.
+Lemma v_lp_whenM : forall b m, v_lp m -> v_lp (whenM b m).
+Proof. intros b m H. destruct b; [exact H|apply v_lp_ret]. Qed.
+Lemma v_lp_getO : forall oi, v_lp (getO oi).
+Proof. intros oi. unfold getO. apply v_lp_bind; [apply v_lp_get|intros; apply v_lp_of_opt]. Qed.
+Lemma v_lp_modO : forall oi f, v_lp (modO oi f).
+Proof. intros oi f. apply v_lp_modify. intros s. reflexivity. Qed.
+Lemma v_lp_mod_agg : forall evt f, v_lp (mod_agg evt f).
+Proof. intros evt f. apply v_lp_modify. intros s. reflexivity. Qed.
+
+Ltac v_lp_step :=
+  lazymatch goal with
+  | |- v_lp (ret _) => apply v_lp_ret
+  | |- v_lp (fail _) => apply v_lp_fail
+  | |- v_lp get => apply v_lp_get
+  | |- v_lp (guard _ _) => apply v_lp_guard
+  | |- v_lp (of_opt _ _) => apply v_lp_of_opt
+  | |- v_lp (getO _) => apply v_lp_getO
+  | |- v_lp (modO _ _) => apply v_lp_modO
+  | |- v_lp (mod_agg _ _) => apply v_lp_mod_agg
+  | |- v_lp (modify _) => apply v_lp_modify; intros ?; reflexivity
+  | |- v_lp (whenM _ _) => apply v_lp_whenM
+  | |- v_lp (bind _ _) => apply v_lp_bind; [|intros ?]
+  | |- v_lp (match ?x with _ => _ end) => destruct x
+  end.
+Ltac v_lp_tac := repeat v_lp_step.
+
+Lemma v_lp_remove_observer : forall oi, v_lp (remove_observer oi).
+Proof. intros oi. unfold remove_observer. v_lp_tac. Qed.
+
+(** The observer's action after the log entry. *)
+Definition v_cb_action (oi : nat) : MW unit :=
+  o <- getO oi ;;
+  match o_cb o with
+  | 0 => ret tt
+  | 1 => s <- get ;; whenM (memb oi (olist s (o_event o))) (remove_observer oi)
+  | S (S k) =>
+      s <- get ;;
+      match nth_error (w_obs s) k with
+      | Some ok => whenM (memb k (olist s (o_event ok))) (remove_observer k)
+      | None => ret tt
+      end
+  end.
+
+Lemma v_lp_cb_action : forall oi, v_lp (v_cb_action oi).
+Proof. intros oi. unfold v_cb_action. v_lp_tac; apply v_lp_remove_observer. Qed.
+
+(** The log entry of a callback, as a function of the state at callback time. *)
+Definition v_cb_entry (oi : nat) (e : ent) (s : W) : list Z :=
+  [100%Z; Zn oi] ++ Zent e ++ [Zb (is_locked s); Zb (alive s e); Zn (count_in_world s e)] ++
+  (if alive s e then match snapshot_entity s e with Some l => l | None => [] end else []).
+
+Lemma v_lockM_ok : forall s b l', lock_lock (w_lock s) = Some (b, l') -> lockM s = Ok b (s <| w_lock := l' |>).
+Proof. intros s b l' H. unfold lockM, bind, get. rewrite H. reflexivity. Qed.
+Lemma v_lockM_err : forall s, lock_lock (w_lock s) = None -> lockM s = Err EBits s.
+Proof. intros s H. unfold lockM, bind, get. rewrite H. reflexivity. Qed.
+Lemma v_unlockM_ok : forall s b l', lock_unlock (w_lock s) b = Some l' -> unlockM b s = Ok tt (s <| w_lock := l' |>).
+Proof. intros s b l' H. unfold unlockM, bind, get. rewrite H. reflexivity. Qed.
+Lemma v_unlockM_err : forall s b, lock_unlock (w_lock s) b = None -> unlockM b s = Err EUnbalanced s.
+Proof. intros s b H. unfold unlockM, bind, get. rewrite H. reflexivity. Qed.
+
+(** A callback that returns normally has appended exactly [v_cb_entry] (computed on the state it
+    was started in) to the log; the observer's action does not touch the log. *)
+Theorem run_callback_log_entry : forall oi e s u s',
+  run_callback oi e s = Ok u s' -> w_log s' = w_log s ++ [v_cb_entry oi e s].
+Proof.
+  intros oi e s u s' H. unfold run_callback in H.
+  unfold bind at 1 in H. unfold get at 1 in H.
+  destruct (lock_lock (w_lock s)) as [[b l']|] eqn:LL.
+  2:{ rewrite (sa_bind_err (v_lockM_err s LL)) in H. discriminate. }
+  rewrite (sa_bind_ok (v_lockM_ok s b l' LL)) in H.
+  unfold bind at 1 in H. unfold get at 1 in H.
+  assert (C : count_in_world (s <| w_lock := l' |>) e = count_in_world s e) by reflexivity.
+  rewrite C in H. clear C.
+  destruct (lock_unlock (w_lock (s <| w_lock := l' |>)) b) as [l''|] eqn:LU.
+  2:{ rewrite (sa_bind_err (v_unlockM_err (s <| w_lock := l' |>) b LU)) in H. discriminate. }
+  rewrite (sa_bind_ok (v_unlockM_ok (s <| w_lock := l' |>) b l'' LU)) in H.
+  unfold bind at 1 in H.
+  assert (T : forall (snap : list Z) (s0 : W), w_log s0 = w_log s ->
+     (x <- log ([100%Z; Zn oi] ++ Zent e ++ [Zb (is_locked s); Zb (alive s e); Zn (count_in_world s e)] ++ snap) ;;
+      v_cb_action oi) s0 = Ok u s' -> w_log s' = w_log s ++ [[100%Z; Zn oi] ++ Zent e ++ [Zb (is_locked s); Zb (alive s e); Zn (count_in_world s e)] ++ snap]).
+  { intros snap s0 E0 H0.
+    set (X := s0 <| w_log ::= fun lg => lg ++ [[100%Z; Zn oi] ++ Zent e ++ [Zb (is_locked s); Zb (alive s e); Zn (count_in_world s e)] ++ snap] |>).
+    assert (H1 : v_cb_action oi X = Ok u s') by exact H0.
+    pose proof (v_lp_cb_action oi X) as P. rewrite H1 in P. simpl in P. rewrite P. unfold X. simpl.
+    rewrite E0. reflexivity. }
+  unfold v_cb_entry. destruct (alive s e).
+  - destruct (snapshot_entity s e) as [snap|]; [|discriminate]. unfold of_opt, ret at 1 in H.
+    eapply T; [|exact H]. reflexivity.
+  - unfold ret at 1 in H. eapply T; [|exact H]. reflexivity.
+Qed.
+
+Lemma v_count_in_world_ext : forall s1 s2 e, w_archs s2 = w_archs s1 -> w_tables s2 = w_tables s1 ->
+  count_in_world s2 e = count_in_world s1 e.
+Proof. intros s1 s2 e A T. unfold count_in_world. rewrite A, T. reflexivity. Qed.
+
+Lemma v_cb_entry_ext : forall oi e s1 s2, storage_same s1 s2 -> w_lock s2 = w_lock s1 ->
+  v_cb_entry oi e s2 = v_cb_entry oi e s1.
+Proof.
+  intros oi e s1 s2 (E1 & E2 & E3 & E4 & E5 & E6 & E7 & _) EL.
+  unfold v_cb_entry, is_locked, alive, snapshot_entity.
+  rewrite (v_count_in_world_ext s1 s2 e E6 E7), EL, E3, E4, E7. reflexivity.
+Qed.
+
 Theorem run_callback_log_storage : forall oi e s1 s2,
   storage_same s1 s2 -> w_lock s2 = w_lock s1 -> w_log s2 = w_log s1 ->
   match run_callback oi e s1, run_callback oi e s2 with
   | Ok _ a, Ok _ b => w_log a = w_log b \/ (nth_error (w_obs s1) oi <> nth_error (w_obs s2) oi)
   | _, _ => True
   end.
-Admitted.
+Proof.
+  intros oi e s1 s2 HS HL HG.
+  destruct (run_callback oi e s1) as [u1 a|] eqn:R1; auto.
+  destruct (run_callback oi e s2) as [u2 b|] eqn:R2; auto.
+  left. rewrite (run_callback_log_entry _ _ _ _ _ R1), (run_callback_log_entry _ _ _ _ _ R2).
+  rewrite HG, (v_cb_entry_ext oi e s1 s2 HS HL). reflexivity.
+Qed.
 
 (** Removal callbacks run before the change: the state handed to the removal events of [w_remove]
     has the same content as the state before the call (only archetypes/tables may have been created). *)
@@ -45,29 +640,211 @@ Definition remove_prefix (e : ent) (rem : list nat) : MW (nat * nat * nat * mask
   let '(ntid, _, m, rel_removed) := r in
   ret (otid, row, ntid, om, m, rel_removed).
 
+Lemma v_content_same_refl : forall s, content_same s s.
+Proof. intros s e. split; auto. Qed.
+
+(** [remove_prefix] is literally the part of [w_remove] before the removal events. *)
+Lemma v_w_remove_prefix : forall e rem s,
+  w_remove e rem s =
+  (p <- remove_prefix e rem ;;
+   let '(otid, row, ntid, om, m, rel_removed) := p in
+   fire_remove_events e om m rel_removed ;;;
+   nidx <- tbl_addM ntid e ;;
+   copy_row otid ntid m row nidx ;;;
+   remove_row otid row ;;;
+   set_index_direct e ntid nidx) s.
+Proof.
+  intros e rem s. unfold w_remove, remove_prefix. unfold bind, get. cbv beta.
+  destruct (check_locked s) as [[] s0|]; [|reflexivity].
+  destruct (guard (alive s0 e) EDead s0) as [[] s1|]; [|reflexivity].
+  destruct (guard (negb (is_nil rem)) ENoComps s1) as [[] s2|]; [|reflexivity].
+  destruct (get_index e s2) as [[otid row] s3|]; [|reflexivity].
+  destruct (arch_mask_of_table otid s3) as [om s4|]; [|reflexivity].
+  destruct (find_or_create_table_remove otid rem om s4) as [[[[ntid naid] m] rr] s5|]; reflexivity.
+Qed.
+
 Theorem remove_events_see_old_content : forall s e rem, St s -> registered s rem ->
   match remove_prefix e rem s with
   | Ok _ s1 => St s1 /\ content_same s s1 /\ live s1 e = true /\ w_lock s1 = w_lock s /\ w_log s1 = w_log s
   | Err _ s1 => content_same s s1
   end.
-Admitted.
+Proof.
+  intros s e rem HS _. pose proof (proj1 HS) as HW.
+  unfold remove_prefix, check_locked, get_index, arch_mask_of_table, getT, getA.
+  unfold bind, get, guard, of_opt, ret, fail. cbv beta.
+  destruct (negb (is_locked s)); [|apply v_content_same_refl].
+  destruct (alive s e) eqn:Al; [|apply v_content_same_refl].
+  destruct (negb (is_nil rem)); [|apply v_content_same_refl].
+  destruct (nth_error (w_index s) (fst e)) as [[[otid|] row]|] eqn:Ix; try apply v_content_same_refl.
+  destruct (nth_error (w_tables s) otid) as [ot|] eqn:T; [|apply v_content_same_refl].
+  destruct (nth_error (w_archs s) (t_arch ot)) as [a|] eqn:A; [|apply v_content_same_refl].
+  assert (Hb : forall j, mk_get (a_mask a) j = true -> j < length (w_reg s)).
+  { destruct (wf_arch_comps _ HW _ _ A) as (_ & B & _). exact B. }
+  pose proof (find_or_create_table_remove_spec s otid ot rem (a_mask a) HS T Hb) as F.
+  destruct (find_or_create_table_remove otid rem (a_mask a) s) as [[[[ntid naid] m] rr] s1|er s1].
+  - destruct F as ((HS1 & SR & (SL & SG & _) & _) & _).
+    pose proof (same_rows_content s s1 HW SR) as C.
+    split; [exact HS1|]. split; [exact C|]. split; [|auto].
+    destruct (C e) as (Lv & _). rewrite Lv. eapply sb2_alive_index_live; eauto.
+  - destruct F as ((_ & SR & _) & _). apply same_rows_content; auto.
+Qed.
 
 (** C19: the entity figures agree with the tables. In a well-formed relation-free world the number of
     used entities (pool length minus reserved minus recycled) equals the total number of rows, and
     total = used + recycled. *)
 Definition total_rows (s : W) : nat := fold_left (fun acc t => acc + t_len t) (w_tables s) 0.
 
+Lemma v_total_rows_sum : forall s, total_rows s = list_sum (map t_len (w_tables s)).
+Proof. intros s. unfold total_rows. rewrite v_fold_sum. reflexivity. Qed.
+
+(** The IDs stored in the rows of table [tid], and of all tables. *)
+Definition v_ids_of (s : W) (tid : nat) : list nat :=
+  match nth_error (w_tables s) tid with
+  | Some t => map (fun r => fst (row_ent t r)) (seq 0 (t_len t))
+  | None => []
+  end.
+Definition v_all_ids (s : W) : list nat := flat_map (v_ids_of s) (seq 0 (length (w_tables s))).
+
+Lemma v_ids_of_in : forall s tid id, In id (v_ids_of s tid) <->
+  exists t r, nth_error (w_tables s) tid = Some t /\ r < t_len t /\ fst (row_ent t r) = id.
+Proof.
+  intros s tid id. unfold v_ids_of. split.
+  - destruct (nth_error (w_tables s) tid) as [t|]; [|intros []]. intros H.
+    apply in_map_iff in H. destruct H as (r & E & Hr). apply in_seq in Hr. exists t, r. repeat split; auto. lia.
+  - intros (t & r & T & R & E). rewrite T. apply in_map_iff. exists r. split; auto. apply in_seq. lia.
+Qed.
+
+Lemma v_all_ids_in : forall s id, In id (v_all_ids s) <->
+  exists tid t r, nth_error (w_tables s) tid = Some t /\ r < t_len t /\ fst (row_ent t r) = id.
+Proof.
+  intros s id. unfold v_all_ids. rewrite in_flat_map. split.
+  - intros (tid & _ & H). apply v_ids_of_in in H. destruct H as (t & r & H). eauto.
+  - intros (tid & t & r & T & R & E). exists tid. split.
+    + apply in_seq. apply sa_nth_error_lt in T. lia.
+    + apply v_ids_of_in. eauto.
+Qed.
+
+Lemma v_all_ids_length : forall s, length (v_all_ids s) = total_rows s.
+Proof.
+  intros s. unfold v_all_ids. rewrite v_length_flat_map, v_total_rows_sum, <- v_sum_tables.
+  f_equal. apply map_ext. intros tid. unfold v_ids_of, v_at.
+  destruct (nth_error (w_tables s) tid); [|reflexivity]. rewrite map_length, seq_length. reflexivity.
+Qed.
+
+Lemma v_all_ids_NoDup : forall s, WF s -> NoDup (v_all_ids s).
+Proof.
+  intros s HW. unfold v_all_ids. apply v_NoDup_flat_map.
+  - apply seq_NoDup.
+  - intros tid _. unfold v_ids_of. destruct (nth_error (w_tables s) tid) as [t|] eqn:T; [|constructor].
+    apply sa_NoDup_map_inj; [|apply seq_NoDup]. intros x y Hx Hy E. apply in_seq in Hx, Hy.
+    destruct (sb2_row_inj s tid t x tid t y HW T ltac:(lia) T ltac:(lia) E). auto.
+  - intros tid tid' id _ _ H H'. apply v_ids_of_in in H, H'.
+    destruct H as (t & r & T & R & E). destruct H' as (t' & r' & T' & R' & E').
+    destruct (sb2_row_inj s tid t r tid' t' r' HW T R T' R' ltac:(congruence)). auto.
+Qed.
+
+(** The IDs from 2 on split into the free list and the IDs stored in rows. *)
+Lemma v_pool_split : forall s, WF s -> length (pe (w_pool s)) - 2 = pavail (w_pool s) + total_rows s.
+Proof.
+  intros s HW. destruct (wf_pool _ HW) as (fl & (P1 & P2 & P3 & P4 & _) & F1 & F2).
+  rewrite <- P2, <- v_all_ids_length, <- app_length.
+  set (n := length (pe (w_pool s))) in *.
+  assert (ND : NoDup (fl ++ v_all_ids s)).
+  { apply v_NoDup_app; [exact P3|apply v_all_ids_NoDup; exact HW|].
+    intros i Hi Hi'. destruct (F1 i Hi) as (r0 & I0). apply v_all_ids_in in Hi'.
+    destruct Hi' as (tid & t & r & T & R & E). destruct (wf_rows _ HW _ _ _ T R) as (L & _).
+    unfold loc in L. rewrite E, I0 in L. discriminate. }
+  assert (I1 : incl (fl ++ v_all_ids s) (seq 2 (n - 2))).
+  { intros i Hi. apply in_seq. apply in_app_or in Hi. destruct Hi as [Hi|Hi].
+    - specialize (P4 i Hi). lia.
+    - apply v_all_ids_in in Hi. destruct Hi as (tid & t & r & T & R & E).
+      destruct (wf_rows _ HW _ _ _ T R) as (L & P). rewrite E in P. apply sa_nth_error_lt in P.
+      destruct (wf_reserved _ HW) as ((r0 & I0) & (r1 & I1) & _).
+      unfold loc in L. rewrite E in L.
+      destruct i as [|[|i]]; [rewrite I0 in L; discriminate|rewrite I1 in L; discriminate|].
+      fold n in P. lia. }
+  assert (I2 : incl (seq 2 (n - 2)) (fl ++ v_all_ids s)).
+  { intros i Hi. apply in_seq in Hi. apply in_or_app.
+    destruct (in_dec Nat.eq_dec i fl) as [Hf|Hf]; [left; exact Hf|right].
+    destruct (F2 i ltac:(fold n; lia) Hf) as (tid & r & Ix).
+    destruct (wf_index _ HW _ _ _ Ix) as (t & T & R & E). apply v_all_ids_in. exists tid, t, r. auto. }
+  pose proof (NoDup_incl_length ND I1) as L1.
+  pose proof (NoDup_incl_length (seq_NoDup (n - 2) 2) I2) as L2.
+  rewrite seq_length in L1, L2. lia.
+Qed.
+
 Theorem used_equals_rows : forall s, St s -> pool_len (w_pool s) = total_rows s.
-Admitted.
+Proof.
+  intros s [HW _]. pose proof (v_pool_split s HW) as H. unfold pool_len, reserved. lia.
+Qed.
 
 Theorem total_is_used_plus_recycled : forall s, St s ->
   pool_cap (w_pool s) = pool_len (w_pool s) + pavail (w_pool s).
-Admitted.
+Proof.
+  intros s [HW _]. pose proof (v_pool_split s HW) as H. unfold pool_cap, pool_len, reserved. lia.
+Qed.
 
 (** The per-archetype figures of [stats_vec] sum to the used entities (every table belongs to exactly
     one archetype's active list in a relation-free world where each archetype has its table). *)
+
+(* NOT DERIVABLE as stated: the hypothesis gives every archetype a listed table, and [WF] makes the
+   listed tables distinct existing tables, but nothing says that EVERY table is listed: a world with
+   tables [t0; t1], both of archetype 0, and the single archetype listing only [1] satisfies [WF],
+   [NoRel] and the hypothesis, yet the rows of [t0] are not counted. Missing clause: [v_tables_listed]
+   (same as for [live_counted_once]). Under it the hypothesis on [a_tables] is not needed.
 Theorem stats_sizes_sum : forall s, St s ->
   (forall aid a, nth_error (w_archs s) aid = Some a -> a_tables a <> []) ->
   fold_left (fun acc a => acc + fold_left (fun acc tid => acc + match nth_error (w_tables s) tid with Some t => t_len t | None => 0 end) (a_tables a) 0) (w_archs s) 0
   = total_rows s.
-Admitted.
+(refuted). *)
+
+Theorem stats_sizes_sum_partial : forall s, St s -> v_tables_listed s ->
+  fold_left (fun acc a => acc + fold_left (fun acc tid => acc + match nth_error (w_tables s) tid with Some t => t_len t | None => 0 end) (a_tables a) 0) (w_archs s) 0
+  = total_rows s.
+Proof.
+  intros s HS HL. rewrite v_fold_sum. simpl.
+  rewrite (map_ext _ (fun a => list_sum (map (v_at s t_len) (a_tables a)))).
+  2:{ intros a. rewrite v_fold_sum. reflexivity. }
+  rewrite v_list_sum_flat. fold (v_listed s).
+  rewrite (v_list_sum_perm _ _ (Permutation_map (v_at s t_len) (v_listed_perm s HS HL))).
+  rewrite v_sum_tables, v_total_rows_sum. reflexivity.
+Qed.
+
+(** The inequality half needs no extra clause: listed tables are distinct existing tables. *)
+Lemma v_list_sum_incl : forall (f : nat -> nat) l l', NoDup l -> incl l l' ->
+  list_sum (map f l) <= list_sum (map f l').
+Proof.
+  induction l as [|a l IH]; intros l' ND I; simpl; [lia|].
+  inversion ND as [|? ? Na Nl]; subst.
+  destruct (in_split a l' (I a (or_introl eq_refl))) as (l1 & l2 & ->).
+  assert (I' : incl l (l1 ++ l2)).
+  { intros x Hx. pose proof (I x (or_intror Hx)) as H. apply in_app_or in H. apply in_or_app.
+    destruct H as [H|[H|H]]; auto. subst. contradiction. }
+  pose proof (IH (l1 ++ l2) Nl I') as H. rewrite !map_app, !list_sum_app in *. simpl. lia.
+Qed.
+
+Theorem stats_sizes_le : forall s, St s ->
+  fold_left (fun acc a => acc + fold_left (fun acc tid => acc + match nth_error (w_tables s) tid with Some t => t_len t | None => 0 end) (a_tables a) 0) (w_archs s) 0
+  <= total_rows s.
+Proof.
+  intros s HS. rewrite v_fold_sum. simpl.
+  rewrite (map_ext _ (fun a => list_sum (map (v_at s t_len) (a_tables a)))).
+  2:{ intros a. rewrite v_fold_sum. reflexivity. }
+  rewrite v_list_sum_flat. fold (v_listed s). rewrite v_total_rows_sum, <- v_sum_tables.
+  apply v_list_sum_incl; [apply v_listed_NoDup; exact HS|].
+  intros tid H. destruct (v_listed_table s tid (proj1 HS) H) as (t & T).
+  apply in_seq. apply sa_nth_error_lt in T. lia.
+Qed.
+
+(** ** The two proposed clauses hold in the initial world. *)
+Lemma v_tables_listed_init : forall c, v_tables_listed (init_world c).
+Proof.
+  intros c [|tid] t H; [|destruct tid; discriminate]. unfold init_world in H. cbn in H.
+  inversion H; subst t. cbn. eexists. split; reflexivity.
+Qed.
+
+Lemma v_targets_zero_init : forall c, v_targets_zero (init_world c).
+Proof.
+  intros c [|tid] t H; [|destruct tid; discriminate]. unfold init_world in H. cbn in H.
+  inversion H; subst t. cbn. constructor.
+Qed.
